@@ -163,7 +163,7 @@ class Remove(Scenario):
             def check(w, tag):
                 snap = tree_snapshot(w)
                 cx.prove(not (set(snap) & gone), f"{tag}: the removed entity and its descendants are gone from the tree "
-                                                 f"({sorted(set(snap) & gone)[:2]})", "removed entities gone")
+                                                 f"({len(set(snap) & gone)} still there)", "removed entities gone")
                 listed = {str(e.uid) for e in list(w.groups) + list(w.objects) + list(w.data)}
                 cx.prove(not (listed & gone), f"{tag}: the workspace listings hold no removed entity", "removed entities gone")
                 # the file itself, after the listings were consulted (they purge dead references; detaching through the parent relies on
